@@ -261,24 +261,32 @@ static void case_ls(vh::Ctx & c, vh::Rng & r, bool is_float)
   const int m = (int)r.range(1, 8);
   const int nprob = (int)r.range(1, 4);
   romea::core::LeastSquares<S> ls(m);
+  typename romea::core::LeastSquares<S>::Matrix * kJ = nullptr; typename romea::core::LeastSquares<S>::Vector * kY = nullptr, * kW = nullptr;
+  int prev_n = -1;
   c.cat(is_float ? "c_ls_covariance_float" : "c_ls_covariance_double");
   std::string trace;
   uint64_t h = vh::hash_doubles({3.0, (double)m, (double)nprob});
   bool any_nonidentity = false;
   for (int k = 0; k < nprob; ++k) {
     int n = (int)r.range(m, r.coin() ? m + 10 : 200);
+    if (r.coin(0.08)) {static const int SZ[] = {64, 128, 256, 512, 1024, 2048, 3072, 4096}; n = SZ[r.range(0, 7)]; c.cat("c_block_boundary_size");}
+    if (k > 0 && r.coin(0.3)) {n = prev_n;}
     LD kap = m == 1 ? 1 : (LD)r.logu(1.0, is_float ? 30.0 : 999.0), sc = r.coin(0.3) ? 1.0 : r.logu(1e-4, 1e4);
     MatL A0(n, m); for (int i = 0; i < n; ++i) {for (int j = 0; j < m; ++j) {A0(i, j) = r.normal();}}
     Eigen::JacobiSVD<MatL> sv0(A0, Eigen::ComputeThinU | Eigen::ComputeThinV);
     VecL s(m); for (int i = 0; i < m; ++i) {s(i) = sc * (i == 0 ? 1 : i == m - 1 ? 1 / kap : (LD)r.logu((double)(1 / kap), 1.0));}
     MatL J = sv0.matrixU() * s.asDiagonal() * sv0.matrixV().transpose();
     int path = (int)r.range(0, 2);          // 0 svd, 1 cholesky, 2 weighted
-    ls.setDataSize(n);
+    // the caller either asks for the buffers again, or (same size as before) writes through the
+    // references it kept from the previous problem without calling anything in between
+    const bool through_kept_refs = kJ && n == prev_n && r.coin();
+    if (!through_kept_refs) {ls.setDataSize(n); kJ = &ls.getJ(); kY = &ls.getY(); kW = &ls.getW();} else {c.cat("c_written_through_kept_references");}
+    prev_n = n;
     MatL Jr(n, m); VecL w(n);
     for (int i = 0; i < n; ++i) {
-      ls.getW()(i) = path == 2 ? (S)r.logu(0.1, 10.0) : S(1); w(i) = (LD)ls.getW()(i);
-      for (int j = 0; j < m; ++j) {ls.getJ()(i, j) = (S)J(i, j); Jr(i, j) = (LD)ls.getJ()(i, j);}
-      ls.getY()(i) = (S)r.normal();
+      (*kW)(i) = path == 2 ? (S)r.logu(0.1, 10.0) : S(1); w(i) = (LD)(*kW)(i);
+      for (int j = 0; j < m; ++j) {(*kJ)(i, j) = (S)J(i, j); Jr(i, j) = (LD)(*kJ)(i, j);}
+      (*kY)(i) = (S)r.normal();
     }
     for (int i = n; i < ls.getJ().rows(); ++i) {for (int j = 0; j < m; ++j) {ls.getJ()(i, j) = (S)1e30;} ls.getY()(i) = (S)1e30; ls.getW()(i) = (S)1e30;}
     VecL a(m);
